@@ -289,6 +289,21 @@ func runC13(c *Ctx) {
 			default:
 				exact = false
 			}
+			// only replicas of the process being scaled are considered: the decision is reached on the edge on which
+			// the replica's Name equals the name parameter
+			okName := false
+			for _, gd := range GuardsOf(ifi) {
+				if gc, isCmp := gd.Cmp(); isCmp && gc.Op == token.EQL {
+					for _, pr := range [][2]ssa.Value{{gc.X, gc.Y}, {gc.Y, gc.X}} {
+						if PathOf(pr[0]).LastField() == s.FName {
+							if _, isP := stripConv(pr[1]).(*ssa.Parameter); isP {
+								okName = true
+							}
+						}
+					}
+				}
+			}
+			c.Check(okName, r3, p.FuncKey(f)+":same-process", p.InstrPos(ifi), "only replicas of the scaled process are touched", "the scale-down decision is not restricted to replicas whose Name equals the requested process (or the test is inverted): replicas of other processes are removed or re-counted")
 			if !c.Check(exact, r3, p.FuncKey(f)+":comparison", p.InstrPos(ifi), "ReplicaNum >= scale", "the removal decision compares ReplicaNum with scale using "+op.String()+" (must be >=: replicas 0..scale-1 survive)") {
 				continue
 			}
